@@ -31,6 +31,7 @@ def predict_case(case):
     n, d = 5, 3
     Xtr = seams.tiny_data(n, d, seed + 40)
     Xnew = seams.tiny_data(5, d, seed + 41) * 1.5
+    Xbig = seams.tiny_data(8, d, seed + 42) * 1.2        # more rows than the training set
     model, y, _ = C.build(name, spec, Xtr, seed)
     model.fit(Xtr, y)
     where = dict(estimator=name, spec=str(SPECS[name][si]))
@@ -59,6 +60,17 @@ def predict_case(case):
         for form, Z in (("copy", X.copy()), ("fortran", np.asfortranarray(X)), ("view", np.concatenate([X, X], axis=1)[:, :d])):
             if not np.array_equal(model.predict(Z), full_l):
                 v.append(violation("prediction_depends_on_memory_layout", {"form": form, "array": tag}, array=tag, **where))
+    # an array longer than the training set: every row alone, every adjacent pair, the reversed array, a 2-row and a (n+1)-row slice
+    full_l = model.predict(Xbig)
+    full_p = model.predict_proba(Xbig) if has_proba else None
+    for idx in [[i] for i in range(8)] + [[i, i + 1] for i in range(7)] + [list(range(7, -1, -1)), list(range(n + 1)), list(range(2, 8))]:
+        n_eval += 1
+        if not np.array_equal(model.predict(Xbig[idx]), full_l[idx]):
+            v.append(violation("label_depends_on_other_rows", {"rows": idx, "array": "big"}, array="big", **where))
+            break
+        if has_proba and not np.allclose(model.predict_proba(Xbig[idx]), full_p[idx], rtol=1e-12, atol=1e-14):
+            v.append(violation("probability_depends_on_other_rows", {"rows": idx, "array": "big"}, array="big", **where))
+            break
     seen, vs = set(), []
     for x in v:
         if x["kind"] not in seen:
